@@ -391,6 +391,19 @@ func hostFunc(f HostFn) func(args []object.Object) object.Object {
 		case "nil":
 			return nil
 		case "panic":
+			// hosts panic with all sorts of values: a string, an error, an integer, a struct, nil-valued things
+			switch f.I {
+			case 1:
+				panic(fmt.Errorf("host function panic (error value)"))
+			case 2:
+				panic(42)
+			case 3:
+				panic(struct{ Code int }{7})
+			case 4:
+				panic([]string{"slice"})
+			case 5:
+				panic(3.5)
+			}
 			panic("host function panic")
 		}
 		return &object.Void{}
@@ -437,7 +450,21 @@ func prepareEval(c *Case, opt bool, ctx context.Context) (e *evalfilter.Eval, er
 }
 
 // RunImpl executes the case on the real code and returns the protocol line.
+// tzOf: a case may ask for a time zone (Show entry "tz=<zone>"); the library reads $TZ at every call
+func tzOf(c *Case) string {
+	for _, s := range c.Show {
+		if strings.HasPrefix(s, "tz=") {
+			return strings.TrimPrefix(s, "tz=")
+		}
+	}
+	return ""
+}
+
 func RunImpl(c *Case) string {
+	if z := tzOf(c); z != "" {
+		os.Setenv("TZ", z)
+		defer os.Setenv("TZ", "UTC")
+	}
 	var sb strings.Builder
 	sb.WriteString(c.ID)
 	ctx := newPollCtx()
@@ -487,7 +514,10 @@ func RunImpl(c *Case) string {
 		sb.WriteString(" fns=" + showFuncs(e.VerifMachine().VerifFunctions()))
 	}
 	var lastPtr reflect.Value
-	for i, r := range c.Runs {
+	series := 0
+runSeries:
+	for i0, r := range c.Runs {
+		i := i0 + series*len(c.Runs)
 		for _, f := range r.Fns { // the host (re)registers functions between runs
 			e.AddFunction(f.Name, hostFunc(f))
 		}
@@ -557,6 +587,33 @@ func RunImpl(c *Case) string {
 		}
 		if has(c.Show, "stack") {
 			fmt.Fprintf(&sb, " k%d=%d", i, e.VerifMachine().VerifStackSize())
+		}
+	}
+	// the same evaluator prepared AGAIN with another script (the exported Script field assigned, then Prepare):
+	// its variables stay, everything that belonged to the old script is gone; then the runs once more
+	if c.Again != "" && series == 0 {
+		e.Script = c.Again
+		captureStart()
+		var perr error
+		var ppanic interface{}
+		func() {
+			defer func() { ppanic = recover() }()
+			if c.Opt {
+				perr = e.Prepare()
+			} else {
+				perr = e.Prepare([]byte{evalfilter.NoOptimize})
+			}
+		}()
+		captureStop()
+		switch {
+		case ppanic != nil:
+			sb.WriteString(" prep2=PANIC")
+		case perr != nil:
+			sb.WriteString(" prep2=err")
+		default:
+			sb.WriteString(" prep2=ok")
+			series = 1
+			goto runSeries
 		}
 	}
 	if has(c.Show, "fresh") {
